@@ -434,19 +434,10 @@ pub fn cases(run_seed: u64, tier: &str, _scratch: &str) -> Vec<Value> {
     let mut gens = if tier == "thorough" { 5 } else { 3 };
     let files = c11::corpus_files();
     let mut c = new_case("C04", run_seed);
-    if sw.chance(1, 3) && !files.is_empty() {
-        let mut f = files[sw.usize(files.len())].clone();
-        if tier != "thorough" {
-            for _ in 0..20 {
-                let len = std::fs::metadata(format!("{}/{}", c11::corpus_dir(), f)).map(|m| m.len()).unwrap_or(0);
-                if len <= 300_000 {
-                    break;
-                }
-                f = files[sw.usize(files.len())].clone();
-            }
-        }
-        // the large corpus files cost minutes and gigabytes per generation chain
-        if std::fs::metadata(format!("{}/{}", c11::corpus_dir(), f)).map(|m| m.len() > 400_000).unwrap_or(false) {
+    let picked = if sw.chance(1, 3) { c11::pick_corpus_file(&mut sw, tier) } else { None };
+    if let Some(f) = picked {
+        // the heavy corpus files cost minutes and gigabytes per generation chain
+        if c11::file_cost(&f) == 2 {
             gens = 3;
         }
         c["source"] = json!({"kind": "corpus", "file": f});
